@@ -31,3 +31,12 @@ def extra(ck, tu, X, tier, seed):
     from checks import xext
     xext.add_ext_obligations(ck, 4 if tier == "thorough" else 3)
     ck.replayers["x."] = replay_writer.replay
+    # reader half of the round trip (the same contracts as C08): candidate files, row extraction, merging, orchestration
+    from checks import C08, pyload, reader_common, filelist_common
+    mod = pyload.module("digital_rf_hdf5")
+    C08.read_rows(ck, mod, 3 if tier == "thorough" else 2)
+    C08.combine(ck, mod, 3)
+    reader_common.wiring(ck, mod)
+    filelist_common.file_list_contract(ck, mod, ((1, 1000), (1, 500), (2, 1000)))
+    for pref in ("read.", "combine.", "reader.", "filelist."):
+        ck.replayers[pref] = C08.replay_reader
